@@ -586,14 +586,14 @@ class Visitor(ast.NodeVisitor):
             value = self.visit(value_node)
             values.append(value)
 
+            # Please see "NOTE ABOUT PLACEHOLDERS AND RE-COMPUTATION": once an operand is a placeholder,
+            # we can not know whether Python evaluates the remaining operands, so we must not visit them.
             if value is PLACEHOLDER:
                 placeholder_seen = True
+                break
 
-            # Please see "NOTE ABOUT PLACEHOLDERS AND RE-COMPUTATION": once an operand is a placeholder,
-            # we can not know where the evaluation stops and keep on visiting for the sake of the representation.
-            #
             # Python does not test the truthiness of the last operand.
-            if not placeholder_seen and i < len(node.values) - 1:
+            if i < len(node.values) - 1:
                 if isinstance(node.op, ast.And) and not value:
                     break
 
@@ -622,13 +622,11 @@ class Visitor(ast.NodeVisitor):
         for i, (comparator_node, op) in enumerate(zip(node.comparators, node.ops)):
             comparator = self.visit(node=comparator_node)
 
-            # Please see "NOTE ABOUT PLACEHOLDERS AND RE-COMPUTATION"
-            if comparator is PLACEHOLDER:
+            # Please see "NOTE ABOUT PLACEHOLDERS AND RE-COMPUTATION": once an operand is a placeholder,
+            # we can not know whether Python evaluates the remaining comparators, so we must not visit them.
+            if placeholder_seen or comparator is PLACEHOLDER:
                 placeholder_seen = True
-
-            if placeholder_seen:
-                left = comparator
-                continue
+                break
 
             if isinstance(op, ast.Eq):
                 comparison = left == comparator
